@@ -184,10 +184,10 @@ func (v *Verifier) buildHarness(fr *FuncRef, fc *FuncContract, cs caseSpec) *har
 			usesRnd = true
 		}
 	}
+	imports["bytes"] = true
 	if usesRnd {
-		imports["bytes"] = true
 		imports["crypto/rand"] = true
-		fmt.Fprintf(&assign, "\t\tstream, _ := hex.DecodeString(vec[\"stream\"])\n\t\trd := bytes.NewReader(stream)\n\t\tsaved := rand.Reader\n\t\trand.Reader = rd\n\t\tdefer func() { rand.Reader = saved; out[\"stream.remaining\"] = fmt.Sprint(rd.Len()) }()\n")
+		fmt.Fprintf(&assign, "\t\tstream, _ := hex.DecodeString(vec[\"stream\"])\n\t\trd := &verifRd{r: bytes.NewReader(stream)}\n\t\tsaved := rand.Reader\n\t\trand.Reader = rd\n\t\tdefer func() { rand.Reader = saved; out[\"stream.remaining\"] = fmt.Sprint(rd.r.Len()); out[\"stream.failed\"] = fmt.Sprint(rd.failed) }()\n")
 	}
 	// call expression
 	args := strings.TrimSuffix(callArgs.String(), ", ")
@@ -299,6 +299,22 @@ import (
 var _ = hex.EncodeToString
 var _ = big.NewInt
 
+// verifRd is the scripted entropy source: it records whether a read ever failed.
+type verifRd struct {
+	r      *bytes.Reader
+	failed bool
+}
+
+func (v *verifRd) Read(p []byte) (int, error) {
+	n, err := v.r.Read(p)
+	if err != nil {
+		v.failed = true
+	}
+	return n, err
+}
+
+var _ = bytes.NewReader
+
 func u64(s string) uint64 {
 	v, _ := new(big.Int).SetString(s, 10)
 	if v == nil {
@@ -350,7 +366,11 @@ func runOne(vec map[string]string) (out map[string]string) {
 
 // runHarness compiles the harness into the package (overlay) and runs it on the vectors.
 func (v *Verifier) runHarness(h *harness, vecs []map[string]string) ([]map[string]string, string, error) {
-	dir := filepath.Join(verifRoot, "build", "replay", sanitize(h.fr.QName()))
+	tag := v.replayTag
+	if tag == "" {
+		tag = fmt.Sprintf("p%d", os.Getpid())
+	}
+	dir := filepath.Join(verifRoot, "build", "replay", tag, sanitize(h.fr.QName()))
 	if os.Getenv("VERIF_REPO") != "" {
 		dir = filepath.Join(os.TempDir(), fmt.Sprintf("verif-replay-%d", os.Getpid()), sanitize(h.fr.QName()))
 	}
@@ -364,6 +384,20 @@ func (v *Verifier) runHarness(h *harness, vecs []map[string]string) ([]map[strin
 	os.WriteFile(vf, vb, 0o644)
 	target := filepath.Join(h.fr.Pkg.Dir, "zz_verif_replay_test.go")
 	ov := map[string]map[string]string{"Replace": {target: src}}
+	if strings.HasPrefix(v.prog.Fset.Position(h.fr.Decl.Pos()).Filename, clientsDir) {
+		// a lemma program: its source lives outside /repo; add the client files (build tag stripped) to the package
+		cl, _ := filepath.Glob(filepath.Join(clientsDir, "*.go"))
+		for _, cf := range cl {
+			b, err := os.ReadFile(cf)
+			if err != nil {
+				continue
+			}
+			txt := strings.Replace(string(b), "//go:build verif\n", "\n", 1)
+			cp := filepath.Join(dir, "zz_verif_client_"+filepath.Base(cf))
+			os.WriteFile(cp, []byte(txt), 0o644)
+			ov["Replace"][filepath.Join(h.fr.Pkg.Dir, "zz_verif_client_"+filepath.Base(cf))] = cp
+		}
+	}
 	ob, _ := json.Marshal(ov)
 	ovf := filepath.Join(dir, "overlay.json")
 	os.WriteFile(ovf, ob, 0o644)
@@ -423,7 +457,7 @@ func (v *Verifier) evalOn(fr *FuncRef, fc *FuncContract, cs caseSpec, vec, out m
 					break
 				}
 				if b, ok := val(m, l.Path); ok {
-					o.Cells[i] = ex.constOf(b, machType(l.Typ))
+					o.Cells[i] = ex.constOf(wrapTo(b, machType(l.Typ)), machType(l.Typ))
 				} else if strict {
 					if _, isT := o.Cells[i].(*Term); isT {
 						o.Cells[i] = ex.constOf(bi(0), machType(l.Typ))
@@ -443,7 +477,7 @@ func (v *Verifier) evalOn(fr *FuncRef, fc *FuncContract, cs caseSpec, vec, out m
 			if a.IsConst() {
 				ex.specVars[n] = a
 			} else if b, ok := val(vec, n); ok {
-				ex.specVars[n] = ex.constOf(b, machType(funcParams(fr)[i].typ))
+				ex.specVars[n] = ex.constOf(wrapTo(b, machType(funcParams(fr)[i].typ)), machType(funcParams(fr)[i].typ))
 			} else {
 				ex.specVars[n] = ex.constOf(bi(0), machType(funcParams(fr)[i].typ))
 			}
@@ -457,7 +491,7 @@ func (v *Verifier) evalOn(fr *FuncRef, fc *FuncContract, cs caseSpec, vec, out m
 				if b == nil {
 					b = bi(0)
 				}
-				o.Cells[j] = ex.constOf(b, machType(l.Typ))
+				o.Cells[j] = ex.constOf(wrapTo(b, machType(l.Typ)), machType(l.Typ))
 			}
 			ex.specVars[n] = PtrV{Obj: o, Typ: a.Typ}
 		case SliceV:
@@ -517,7 +551,7 @@ func (v *Verifier) evalOn(fr *FuncRef, fc *FuncContract, cs caseSpec, vec, out m
 			if b == nil {
 				b = bi(0)
 			}
-			results = append(results, ex.constOf(b, mt))
+			results = append(results, ex.constOf(wrapTo(b, mt), mt))
 		case "error":
 			s := out[r]
 			switch {
@@ -544,7 +578,7 @@ func (v *Verifier) evalOn(fr *FuncRef, fc *FuncContract, cs caseSpec, vec, out m
 					if b == nil {
 						b = bi(0)
 					}
-					o.Cells[j] = ex.constOf(b, machType(l.Typ))
+					o.Cells[j] = ex.constOf(wrapTo(b, machType(l.Typ)), machType(l.Typ))
 				}
 				results = append(results, PtrV{Obj: o, Typ: pt})
 			default:
@@ -594,7 +628,7 @@ func (v *Verifier) evalOn(fr *FuncRef, fc *FuncContract, cs caseSpec, vec, out m
 		consumed := len(rndStream) - r
 		ex.ghost["rnd"] = IntI(int64(consumed / 32))
 		// a read failure is the only way to leave fewer than a whole block unread or to run dry
-		ex.ghost["rndfail"] = BoolC(out["panic"] != "" && (strings.Contains(out["panic"], "EOF")))
+		ex.ghost["rndfail"] = BoolC(out["stream.failed"] == "true")
 	}
 	if p, ok := out["panic"]; ok {
 		// the real function panicked: a violation unless the contract's ensures_panics condition holds
@@ -1021,23 +1055,47 @@ func main() {
 	fmt.Println(secp256k1.EncodeToGroup([]byte("msg"), []byte("a-domain-separation-tag")).Hex())
 }
 `), 0o644)
-	for _, tags := range []string{"", "purego"} {
+	cfgs := []buildConfig{defaultCfg, altConfigs[0]}
+	if v.cfgLabel != "" {
+		cfgs = nil
+		for _, c := range altConfigs {
+			if c.Name == v.cfgLabel {
+				cfgs = []buildConfig{c}
+			}
+		}
+	}
+	for _, cfg := range cfgs {
+		if cfg.GOOS != "linux" || (cfg.GOARCH != "amd64" && cfg.GOARCH != "386") {
+			continue // cannot be executed on this machine
+		}
 		args := []string{"run"}
-		if tags != "" {
-			args = append(args, "-tags", tags)
+		if len(cfg.Tags) > 0 {
+			args = append(args, "-tags", strings.Join(cfg.Tags, ","))
 		}
 		args = append(args, ".")
 		cmd := exec.Command("go", args...)
 		cmd.Dir = dir
-		cmd.Env = append(os.Environ(), "GOFLAGS=-mod=mod", "GOPROXY=off", "GOSUMDB=off", "GOTOOLCHAIN=local")
+		cmd.Env = append(os.Environ(), "GOFLAGS=-mod=mod", "GOPROXY=off", "GOSUMDB=off", "GOTOOLCHAIN=local", "GOOS="+cfg.GOOS, "GOARCH="+cfg.GOARCH, "CGO_ENABLED=0")
 		out, err := cmd.CombinedOutput()
-		if err != nil && strings.Contains(string(out), "unavailable") {
+		if err != nil && (strings.Contains(string(out), "unavailable") || strings.Contains(string(out), "panic:")) {
 			rep["found_by"] = "bare-main"
-			rep["inputs"] = map[string]string{"program": "package main importing only " + modPath, "build_tags": tags}
+			rep["inputs"] = map[string]string{"program": "package main importing only " + modPath, "build_configuration": cfg.Name}
 			rep["observed"] = truncate(string(out), 1500)
-			rep["cmd"] = "go run " + strings.Join(args[1:], " ") + "   (module with `replace " + modPath + " => " + v.prog.Root + "`, main calling the three hashing functions)"
+			rep["cmd"] = "GOOS=" + cfg.GOOS + " GOARCH=" + cfg.GOARCH + " go run " + strings.Join(args[1:], " ") + "   (module with `replace " + modPath + " => " + v.prog.Root + "`, main calling the three hashing functions)"
 			return true
 		}
 	}
 	return false
+}
+
+// wrapTo reduces an input value to the range of its machine type, the way the harness's conversion T(u64(s)) does.
+func wrapTo(b *big.Int, mt mtype) *big.Int {
+	if b == nil || mt.Kind != "int" || mt.W == 0 {
+		return b
+	}
+	r := new(big.Int).Mod(b, pow2(mt.W))
+	if mt.Signed && r.Cmp(pow2(mt.W-1)) >= 0 {
+		r.Sub(r, pow2(mt.W))
+	}
+	return r
 }
